@@ -92,6 +92,11 @@ class key_roundtrip:
                 k3 = Key(rep)
                 out[label] = (k3.public_point() == k.public_point(), k3.is_private, k3.compressed)
                 out[label + '-format'] = get_key_format(rep)['is_private']
+            # compressed import -> uncompressed export -> import: the same point, 65 bytes / 130 hex digits
+            k4 = Key(k.public_compressed_hex)
+            u = k4.public_uncompressed_hex
+            x, y = k.public_point()
+            out['recompress'] = (u == '04' + '%064x%064x' % (x, y), k4.public_uncompressed_byte == bytes.fromhex('04' + '%064x%064x' % (x, y)))
             return out
         return run, [], {}
 
@@ -106,7 +111,7 @@ class key_roundtrip:
         for label in ('public', 'public-bytes'):
             if result[label] != (True, False, compressed) or result[label + '-format'] is not False:
                 return False
-        return True
+        return result['recompress'] == (True, True)
 
     def sample(rng):
         r = rng.random()
